@@ -37,6 +37,8 @@ SETS = {
     'addr': {'operand_values': {'abs': {'type': 'numeric', 'argument': {'size': 16, 'byte_align': True}}}},
     'rel': {'operand_values': {'rel': {'type': 'relative_address',
                                        'argument': {'size': 8, 'byte_align': True, 'min': -128, 'max': 127}}}},
+    'rele': {'operand_values': {'rel': {'type': 'relative_address', 'offset_from_instruction_end': True,
+                                        'argument': {'size': 8, 'byte_align': True, 'min': -128, 'max': 127}}}},
     'regs': {'operand_values': {
         'r_a': {'type': 'register', 'register': 'a', 'bytecode': {'value': 0, 'size': 2}},
         'r_x': {'type': 'register', 'register': 'x', 'bytecode': {'value': 1, 'size': 2}},
@@ -47,7 +49,7 @@ SETS = {
 }
 # mnemonic -> operand sets; t12 is 12 bits, h3 is 3 bits: steps that are not whole bytes
 BASE = {'nop': [], 'h3': [], 'ldi': ['imm8'], 't12': ['imm8'], 'jmp': ['addr'], 'br': ['rel'], 'mov': ['regs', 'regs'],
-        'brx': ['regs', 'rel']}
+        'brx': ['regs', 'rel'], 'bre': ['rele'], 'brxe': ['regs', 'rele']}
 LABELS = ['start', 'loop', 'done', 'tbl', 'vec']
 
 
@@ -62,6 +64,8 @@ def base_isa(draw):
         'br': {'bytecode': {'value': draw(st.integers(0, 255)), 'size': 8}, 'operands': {'count': 1, 'operand_sets': {'list': ['rel']}}},
         'mov': {'bytecode': {'value': draw(st.integers(0, 15)), 'size': 4}, 'operands': {'count': 2, 'operand_sets': {'list': ['regs', 'regs']}}},
         'brx': {'bytecode': {'value': draw(st.integers(0, 63)), 'size': 6}, 'operands': {'count': 2, 'operand_sets': {'list': ['regs', 'rel']}}},
+        'bre': {'bytecode': {'value': draw(st.integers(0, 255)), 'size': 8}, 'operands': {'count': 1, 'operand_sets': {'list': ['rele']}}},
+        'brxe': {'bytecode': {'value': draw(st.integers(0, 63)), 'size': 6}, 'operands': {'count': 2, 'operand_sets': {'list': ['regs', 'rele']}}},
     }
     if draw(st.booleans()):
         instrs['br']['operands']['operand_sets'] = {'list': ['rel']}
@@ -88,11 +92,11 @@ def _macro_variant(draw, nops_choices=(0, 1, 1, 2, 2)):
             numeric_like = [i for i, s in enumerate(osets) if s in ('imm8', 'addr', 'rel')]
             reg_like = [i for i, s in enumerate(osets) if s == 'regs']
             k = draw(st.integers(0, 9))
-            if slot_set in ('imm8', 'addr', 'rel'):
+            if slot_set in ('imm8', 'addr', 'rel', 'rele'):
                 if numeric_like and k < 6:
                     i = draw(st.sampled_from(numeric_like))
                     slots.append(draw(st.sampled_from([f'@ARG({i})', f'@OP({i})'])))
-                elif slot_set == 'rel':
+                elif slot_set in ('rel', 'rele'):
                     slots.append(draw(st.sampled_from(LABELS)))
                 else:
                     slots.append(str(draw(st.integers(0, 255))))
@@ -278,9 +282,9 @@ def execute(case, ctx):
             feats.add('multi-variant')
         for i, l in enumerate(ls):
             m = l.split(' ')[0]
-            if m in ('t12', 'h3', 'brx') and info['steps'] > 1:
+            if m in ('t12', 'h3', 'brx', 'brxe') and info['steps'] > 1:
                 feats.add('partial-byte-step')
-            if m in ('br', 'brx') and i >= 1:
+            if m in ('br', 'brx', 'bre', 'brxe') and i >= 1:
                 feats.add('relative-step-at-position>=2')
     if r1.klass == 'timeout':
         findings.append(Finding('C10/timeout', detail))
